@@ -400,6 +400,30 @@ class NPProxy(object):
             return _sa_mean(a_.view(SymArray), axis=axis)
         return real_np.mean(a, axis=axis, **kw)
 
+    def digitize(self, x, bins, right=False):
+        x_ = np.asarray(x)
+        b_ = np.asarray(bins)
+        if x_.dtype != object and b_.dtype != object:
+            return real_np.digitize(x, bins, right=right)
+        # numpy's object binary search is inconsistent when NaN floats are present; search element-wise
+        _used('np.digitize on object arrays (element-wise search by comparison forks; NaN sorts last)')
+        bl = list(b_.flat)
+        for u, v in zip(bl[:-1], bl[1:]):
+            if not bool(lift(u) <= lift(v)):
+                raise PathAbort("np.digitize stub: bins must be increasing", kind='engine-gap')
+        out = real_np.zeros(x_.shape, dtype=real_np.intp)
+        for idx in np.ndindex(x_.shape):
+            v = x_[idx]
+            if isinstance(v, (float, np.floating)) and math.isnan(v):
+                out[idx] = len(bl)
+                continue
+            i = 0
+            lv = lift(v)
+            while i < len(bl) and bool((lv > bl[i]) if right else (lv >= bl[i])):
+                i += 1
+            out[idx] = i
+        return out
+
     def median(self, a, *args, **kw):
         a_ = np.asarray(a)
         if a_.dtype != object:
